@@ -43,7 +43,7 @@ CLAIMED = {
         design_ref='4.5, 4.6, 7 (C01)'),
     "C02": dict(
         engine="db",
-        text='DB.tla: Commit publishes all tables of a transaction in one step; Abort changes nothing (TLC: Prop_C02_Abort on the bounded model). drv_db aborts about half of the transactions (writes on every index kind, Changes(), initializer registration/completion, InsertWatch) and TLC validates that the full query battery, revisions, channel bits, initializer state and all later transactions equal what DB.tla predicts from the pre-transaction state (C02_AbortNoTrace, C06_C02_AbortOpen, C02_AbortPanic). The cross-goroutine atomicity half is decided by the schedule driver once built; this commit claims the sequential half.',
+        text='DB.tla: Commit publishes all tables of a transaction in one step; Abort changes nothing (TLC: Prop_C02_Abort on the bounded model). drv_db aborts about half of the transactions (writes on every index kind, Changes(), initializer registration/completion, InsertWatch) and TLC validates that the full query battery, revisions, channel bits, initializer state and all later transactions equal what DB.tla predicts from the pre-transaction state (C02_AbortNoTrace, C06_C02_AbortOpen, C02_AbortPanic). Across goroutines: DBImpl.tla (Inv_C02_Atomic/NoTrace) and schedule replay (drv_sched): after every protocol step a fresh reader must see the abstract root or the root after publishing exactly one open transaction, and the snapshot returned by Commit is queried later and must be the state at that publish.',
         note='TLC 1.8 + CommunityModules; the Go harness logs replies faithfully; sequential driver (one goroutine) under testing/synctest; sampled shaped histories (small-scope); two live objects never share a unique secondary key; LPM Get/List judged for full-length keys and stored prefixes.',
         technique="TLA+ specs Table.tla + DB.tla; TLC model checking + TLC trace validation (DBTrace.tla) of logs of the real DB",
         design_ref='4.6, 7 (C02)'),
@@ -67,13 +67,13 @@ CLAIMED = {
         design_ref='4.6, 7 (C06)'),
     "C07": dict(
         engine="db",
-        text='DB.tla models change iterators by what they have delivered (replay map, delivered deletions, cursor) against the ideal graveyard; TLC validates every Next of the real code: strictly increasing revisions, only committed changes whatever transaction is passed, replay = snapshot and all owed deletions delivered at full consumption, nothing delivered with an open watch, open watch closes at the next changing commit. Virtual-time graveyard collection runs in between (testing/synctest).',
+        text='DB.tla models change iterators by what they have delivered (replay map, delivered deletions, cursor) against the ideal graveyard; TLC validates every Next of the real code: strictly increasing revisions, only committed changes whatever transaction is passed, replay = snapshot and all owed deletions delivered at full consumption, nothing delivered with an open watch, open watch closes at the next changing commit. Virtual-time graveyard collection runs in between (testing/synctest). Graveyard.tla (TLC, 1.36 M states, five mutants) checks at design level that marking + lock-free scan + later removal provide exactly that (Inv_C07_Converge); TLC prints one script per transition of its graph of API calls, replayed through drv_db. statedb.Observable subscribers are judged as the iterators they are. Schedules (drv_sched) add an iterator consumer calling Next with snapshots taken between the store of a new root and the closing of the channels.',
         note='TLC 1.8 + CommunityModules; the Go harness logs replies faithfully; sequential driver (one goroutine) under testing/synctest; sampled shaped histories (small-scope); two live objects never share a unique secondary key; LPM Get/List judged for full-length keys and stored prefixes.',
         technique="TLA+ specs Table.tla + DB.tla; TLC model checking + TLC trace validation (DBTrace.tla) of logs of the real DB",
         design_ref='4.6, 7 (C07)'),
     "C08": dict(
         engine="db",
-        text="DB.tla Needed(t) = deletions some open iterator created before them has not been handed; the real graveyard size (public Metrics interface) must be >= |Needed| always and = |Needed| after virtual-time quiescence, and C07's convergence must still hold for lagging iterators after collection runs. The scan/write race of the collector is decided by the schedule driver once built.",
+        text="DB.tla Needed(t) = deletions some open iterator created before them has not been handed; the real graveyard size (public Metrics interface) must be >= |Needed| always and = |Needed| after virtual-time quiescence, and C07's convergence must still hold for lagging iterators after collection runs. Graveyard.tla: Inv_C08_Retain, Inv_C08_NoTombstoneOfLive, Live_C08_Drain under fairness (mutants ignoreZero, keepOnReinsert, markSnapshot, closeNoTrigger, dropTriggerAfterPass are rejected). The scan/write window of the collector is exercised by drv_sched with the collector as an actor parked at gc.scanned and inside its write transaction (families sched-gc incl. gclate, sched-tlc-gc).",
         note='TLC 1.8 + CommunityModules; the Go harness logs replies faithfully; sequential driver (one goroutine) under testing/synctest; sampled shaped histories (small-scope); two live objects never share a unique secondary key; LPM Get/List judged for full-length keys and stored prefixes.',
         technique="TLA+ specs Table.tla + DB.tla; TLC model checking + TLC trace validation (DBTrace.tla) of logs of the real DB",
         design_ref='4.6, 7 (C08)'),
@@ -120,19 +120,20 @@ CLAIMED = {
              "as the abstract root or the root after publishing exactly one open transaction, checks that no two open "
              "transactions share a table, that replies inside a transaction reflect every earlier commit and that "
              "registered tables never disappear.",
-        note="TLC 1.8; goroutines are serialised by the verif hooks (one protocol step at a time), 'blocked' is the goroutine wait reason sync.Mutex.Lock read from runtime.Stack; <= 6 goroutines, 2-4 tables per configuration; schedules sampled (random bursts + one per transition of the DBImpl.tla state graph).",
+        note="TLC 1.8; goroutines are serialised by the verif hooks (one protocol step at a time), 'blocked' is the goroutine wait reason sync.Mutex.Lock read from runtime.Stack; <= 6 goroutines, 2-4 tables per configuration (65..130 in family sched-many); schedules sampled (random bursts + one per transition of the DBImpl.tla state graph).",
         technique="TLA+ specs DBImpl.tla (protocol) + DB.tla; TLC model checking incl. mutants, TLC-generated schedules replayed "
                   "through blocking hooks, TLC trace validation (SchedTrace.tla)",
         design_ref="4.7, 5.3, 7 (C05)"),
     "C10": dict(
         engine="sched",
-        text="DBImpl.tla: TLC deadlock check (no state constraint) for table sets given unsorted and with duplicates, liveness "
+        text="DBImpl.tla (writers, registrar, graveyard collector as actors): TLC deadlock check (no state constraint) for table sets given unsorted and with duplicates, liveness "
              "<>AllDone under weak fairness, Inv_C10_Independent; the unsorted-lock mutant deadlocks. drv_sched: every goroutine "
              "that does not reach its next gate is classified from its wait reason; SchedTrace.tla rejects a goroutine blocked "
              "on a table lock while no other transaction shares a table with it, blocked on the root mutex while nobody is "
              "inside the root section, a probe (reader) that does not complete at any gate, and a schedule whose actors cannot "
-             "all finish.",
-        note="TLC 1.8; goroutines are serialised by the verif hooks (one protocol step at a time), 'blocked' is the goroutine wait reason sync.Mutex.Lock read from runtime.Stack; <= 6 goroutines, 2-4 tables per configuration; schedules sampled (random bursts + one per transition of the DBImpl.tla state graph).",
+             "all finish; in sequential histories (drv_db) the death of the process with every goroutine asleep is a violation "
+             "(C10_Deadlock).",
+        note="TLC 1.8; goroutines are serialised by the verif hooks (one protocol step at a time), 'blocked' is the goroutine wait reason sync.Mutex.Lock read from runtime.Stack; <= 6 goroutines, 2-4 tables per configuration (65..130 in family sched-many); schedules sampled (random bursts + one per transition of the DBImpl.tla state graph).",
         technique="TLA+ spec DBImpl.tla (deadlock + liveness by TLC); schedule replay through blocking hooks; TLC trace validation",
         design_ref="4.7, 5.3, 7 (C10)"),
     "C14": dict(
@@ -143,7 +144,7 @@ CLAIMED = {
              "flight, round sizes 1..1000, batch and single mode; after the last failure/change time advances by "
              "(failures+2) x (max backoff+100 ms) and TLC checks that every live object is Done with its latest contents in the "
              "target and every removed object is gone (C14_Converged_*).",
-        note='TLC 1.8; virtual time (testing/synctest), instantaneous operations, refresh loop disabled; every commit to the reconciled table is observed at its linearization point through the verif hook commit.stored; sampled environment scripts (<= 4 objects, <= 6 failures).',
+        note='TLC 1.8; virtual time (testing/synctest), instantaneous operations, refresh loop enabled in family refresh and a fifth of the other scripts; every commit to the reconciled table is observed at its linearization point through the verif hook commit.stored; sampled environment scripts (<= 4 objects, <= 6 failures).',
         technique="TLA+ trace specification RecTrace.tla (monitor) checked by TLC on logs of the real reconciler under virtual time",
         design_ref="4.9, 5.5, 7 (C14)"),
     "C15": dict(
@@ -153,7 +154,7 @@ CLAIMED = {
              "object re-created (C15_NoResurrect), Done objects not updated again (C15_NotPendingNotUpdated), Prune only when "
              "initialized and with the complete table of its snapshot (C15_Prune*). drv_rec places update / delete / delete+re-insert / "
              "status-only writes of a second writer between an operation and its status commit, for every outcome.",
-        note='TLC 1.8; virtual time (testing/synctest), instantaneous operations, refresh loop disabled; every commit to the reconciled table is observed at its linearization point through the verif hook commit.stored; sampled environment scripts (<= 4 objects, <= 6 failures).',
+        note='TLC 1.8; virtual time (testing/synctest), instantaneous operations, refresh loop enabled in family refresh and a fifth of the other scripts; every commit to the reconciled table is observed at its linearization point through the verif hook commit.stored; sampled environment scripts (<= 4 objects, <= 6 failures).',
         technique="TLA+ trace specification RecTrace.tla (monitor) checked by TLC on logs of the real reconciler under virtual time",
         design_ref="4.9, 5.5, 7 (C15)"),
     "C16": dict(
@@ -162,8 +163,8 @@ CLAIMED = {
              "shrinking over consecutive failures, <= maximum + slack on an idle reconciler, restart after the object changes; "
              "WaitUntilReconciled(rev) returning without error requires an attempt at a revision >= the last user change <= rev of "
              "every object, and at quiescent moments the reported low watermark must be 0 iff no failed object awaits retry, else "
-             "the smallest revision passed to a failed call.",
-        note='TLC 1.8; virtual time (testing/synctest), instantaneous operations, refresh loop disabled; every commit to the reconciled table is observed at its linearization point through the verif hook commit.stored; sampled environment scripts (<= 4 objects, <= 6 failures).',
+             "the revision at which the oldest still failing change was first attempted (Reconciler.tla: Inv_C16_LowWatermark).",
+        note='TLC 1.8; virtual time (testing/synctest), instantaneous operations, refresh loop enabled in family refresh and a fifth of the other scripts; every commit to the reconciled table is observed at its linearization point through the verif hook commit.stored; sampled environment scripts (<= 4 objects, <= 6 failures).',
         technique="TLA+ trace specification RecTrace.tla (monitor) checked by TLC on logs of the real reconciler under virtual time",
         design_ref="4.9, 5.5, 7 (C16)"),
     "C20": dict(
@@ -218,18 +219,18 @@ def main():
             {"name": "lpm", "path": "harness/drv_lpm.go + spec/LPM.tla + spec/trace/LPMTrace.tla",
              "serves_properties": ["C13"],
              "kind_free_text": "script interpreter for lpm.Trie + TLA+ trace specification checked by TLC"},
-            {"name": "db", "path": "harness/drv_db.go + spec/Table.tla + spec/DB.tla + spec/trace/DBTrace.tla",
-             "serves_properties": ["C01", "C02", "C03", "C04", "C06", "C07", "C08", "C09", "C19"],
+            {"name": "db", "path": "harness/drv_db.go + spec/Table.tla + spec/DB.tla + spec/Graveyard.tla + spec/gen/GenDB.tla + spec/gen/GenGraveyard.tla + spec/trace/DBTrace.tla",
+             "serves_properties": ["C01", "C02", "C03", "C04", "C06", "C07", "C08", "C09", "C10", "C19"],
              "kind_free_text": "sequential script interpreter for statedb.DB under testing/synctest + TLA+ trace specification checked by TLC"},
             {"name": "map", "path": "harness/drv_map.go + spec/PartMap.tla + spec/trace/MapTrace.tla",
              "serves_properties": ["C17"], "kind_free_text": "script interpreter for part.Map/Set + TLA+ trace specification"},
             {"name": "enc", "path": "harness/drv_enc.go + spec/KeyEnc.tla + spec/trace/EncTrace.tla",
              "serves_properties": ["C18"], "kind_free_text": "encoder output tables validated by TLC against KeyEnc.tla"},
             {"name": "sched", "path": "harness/drv_sched.go + spec/DBImpl.tla + spec/gen/GenDBImpl.tla + spec/trace/SchedTrace.tla",
-             "serves_properties": ["C02", "C05", "C06", "C08", "C10", "C19"],
+             "serves_properties": ["C02", "C05", "C06", "C07", "C08", "C10", "C19"],
              "kind_free_text": "deterministic goroutine scheduler on the verif hooks + probes after every protocol step, validated by TLC"},
-            {"name": "rec", "path": "harness/drv_rec.go + spec/trace/RecTrace.tla",
-             "serves_properties": ["C14", "C15", "C16"], "kind_free_text": "reconciler under virtual time, monitored by a TLA+ trace specification"},
+            {"name": "rec", "path": "harness/drv_rec.go + spec/Reconciler.tla + spec/trace/RecTrace.tla",
+             "serves_properties": ["C14", "C15", "C16"], "kind_free_text": "reconciler under virtual time, monitored by a TLA+ trace specification; algorithm model Reconciler.tla checked by TLC incl. mutants"},
             {"name": "ws", "path": "harness/drv_ws.go + spec/WatchSetProp.tla + spec/WatchSet.tla + spec/trace/WSTrace.tla",
              "serves_properties": ["C20"], "kind_free_text": "WatchSet.Wait scenarios under virtual time validated by TLC"},
         ],
